@@ -5,7 +5,7 @@
    codes through each operation and the prefix property of read results are decided by fault enumeration on the
    implementation (checks/c19.py): every device transfer of every call of the target groups is failed in turn. *)
 From Coq Require Import ZArith List Bool.
-From ADF Require Import CPrelude Generated.Leaf Base.Prog Proofs.ProgP Model.FileIO Proofs.FileIOL Proofs.FileIOP Proofs.FileIOFaultP.
+From ADF Require Import CPrelude Generated.Leaf Base.Prog Proofs.ProgP Model.FileIO Proofs.FileIOL Proofs.FileIOP Proofs.FileIOFaultP Proofs.FileIOReachP.
 Local Open Scope Z_scope.
 
 Theorem C19_containment_under_any_faults : forall (D : Type) (E : env D) (v : volinfo) (dev_ro : Z), vol_ok v ->
@@ -55,6 +55,21 @@ Theorem C19_read_after_faulty_seek_returns_true_bytes : forall bs ofs key, 0 < b
   exists s'' m, fio_read bs ofs bad2 s' n = (s'', sub ct (Z.min p (fsize s)) m) /\ 0 <= m <= Z.max 0 (Z.min n (fsize s - Z.min p (fsize s))).
 Proof. exact seek_then_read_faulty. Qed.
 
+(* ---- every history ----
+   `Hst s`: s is coherent, or it is what a failed call left - clean, with the volume and header of a coherent state of the same file and content, and
+   no buffered block (or a coherent cursor).  ANY sequence of adfFileRead / adfFileSeek calls, each under its OWN arbitrary set of unreadable
+   blocks, keeps the handle in Hst, and every read of the sequence delivers a prefix of the file's true bytes at the position the handle had when
+   the call began - fewer bytes, never wrong ones, whatever failed before (failed reads, failed seeks, seeks that went through the OFS fallback,
+   seeks that "succeeded" without a buffered block, recoveries by a later seek) *)
+Theorem C19_any_history_of_reads_and_seeks_under_faults : forall bs ofs key, 0 < bs -> forall L E ct (ops : list rop) s,
+  Hst bs ofs key L E ct s -> 0 < len ct -> Forall rop_ok ops ->
+  Hst bs ofs key L E ct (fst (run_r bs ofs s ops)) /\ Forall (fun e => exists m, snd e = sub ct (fst e) m) (snd (run_r bs ofs s ops)).
+Proof. intros bs ofs key Hbs L E ct ops s. exact (hst_history bs ofs key Hbs L E ct ops s). Qed.
+
+(* the premise is met by every state reachable through fault-free calls (C01_every_reachable_handle_state) *)
+Theorem C19_reachable_states_qualify : forall bs ofs key, 0 < bs -> forall s ct, Reach bs ofs key s ct -> exists L E, Hst bs ofs key L E ct s.
+Proof. intros bs ofs key Hbs s ct Hr. destruct (reach_coherent bs ofs key Hbs s ct Hr) as (L & E & I & R). exists L, E. left. split; assumption. Qed.
+
 (* (the fault model of these theorems is a set of unreadable blocks that is FIXED during a call; a block that fails once and then reads - a
    transient fault - is in the enumeration of checks/c19.py only.  The FFS-only statement below is kept: it says more - the success is the very
    state the fault-free seek produces.) *)
@@ -70,6 +85,8 @@ Qed.
 Print Assumptions C19_containment_under_any_faults.
 Print Assumptions C19_ffs_seek_success_is_the_faultfree_seek_partial.
 Print Assumptions C19_seek_success_is_coherent.
+Print Assumptions C19_any_history_of_reads_and_seeks_under_faults.
+Print Assumptions C19_reachable_states_qualify.
 Print Assumptions C19_read_after_faulty_seek_returns_true_bytes.
 Print Assumptions C19_read_returns_only_true_bytes_partial.
 Print Assumptions C19_refusal_is_an_error.
